@@ -188,6 +188,7 @@ type Action struct {
 	Pad       int
 	CloseAfter bool // close the connection right after the reply (FIN)
 	ResetAfter bool // reset the connection right after the reply
+	SilentKillAfter bool // the server vanishes right after the reply (client learns on next write)
 	CloseBefore bool // close instead of replying
 	Garbage   bool // send a short/garbage frame instead
 	HoldUntil chan struct{} // reply only after this channel is closed
@@ -284,6 +285,8 @@ func (w *W1) Serve(opts ServerOpts) func(sc *simnet.Conn) {
 				} else if act.ResetAfter {
 					simrt.Fault("srv_reset_after_reply")
 					sc.Reset()
+				} else if act.SilentKillAfter {
+					sc.KillSilently()
 				}
 			}
 			if act.Delay > 0 || act.HoldUntil != nil || act.DupDelay > 0 {
@@ -291,7 +294,7 @@ func (w *W1) Serve(opts ServerOpts) func(sc *simnet.Conn) {
 			} else {
 				send()
 			}
-			if (act.CloseAfter || act.ResetAfter) && act.Delay == 0 && act.HoldUntil == nil {
+			if (act.CloseAfter || act.ResetAfter || act.SilentKillAfter) && act.Delay == 0 && act.HoldUntil == nil {
 				return
 			}
 		}
